@@ -393,3 +393,5 @@ func genPki(yield func(any)) {
 }
 
 func init() { register("pki", genPki, execPki) }
+
+func nowMinusHour() time.Time { return time.Now().Add(-time.Hour) }
